@@ -88,3 +88,44 @@ Proof.
   split; [do 4 eexists; vm_compute; reflexivity|].
   vm_compute. repeat split; reflexivity.
 Qed.
+
+
+(* ---------------- out-of-order commands are answered 5xx (4xx for the recipient limit) ---------------- *)
+(* Together with C03_order (no callback outside the allowed states) these give the property's clause
+   "an out-of-order command is answered 5xx and causes no callback": each refusal below is the handler's
+   complete result - the state is unchanged and the only event is the reply. *)
+From Smtp Require Import GoStrings Parse C03Refusals.
+
+Theorem C03_mail_before_greeting cfg c arg :
+  c_helo c = nil ->
+  handle_mail cfg c arg = (c, [reply 502 (5, 5, 1)%Z (bs "Please introduce yourself first.")]).
+Proof. exact (mail_before_greeting cfg c arg). Qed.
+Print Assumptions C03_mail_before_greeting.
+
+Theorem C03_rcpt_without_mail cfg c arg :
+  c_from c = false ->
+  handle_rcpt cfg c arg = (c, [reply 502 (5, 5, 1)%Z (bs "Missing MAIL FROM command.")]).
+Proof. exact (rcpt_without_mail cfg c arg). Qed.
+Print Assumptions C03_rcpt_without_mail.
+
+Theorem C03_data_without_envelope cfg c :
+  c_bdat c = None -> c_binarymime c = false -> (c_from c = false \/ c_rcpts c = nil) ->
+  handle_data cfg c nil = (c, [reply 502 (5, 5, 1)%Z (bs "Missing RCPT TO command.")]).
+Proof. exact (data_without_envelope cfg c). Qed.
+Print Assumptions C03_data_without_envelope.
+
+Theorem C03_refused_during_transfer cfg c arg b :
+  c_bdat c = Some b ->
+  (c_helo c <> nil -> handle_mail cfg c arg = (c, [reply 502 (5, 5, 1)%Z (bs "MAIL not allowed during message transfer")]))
+  /\ (c_from c = true -> handle_rcpt cfg c arg = (c, [reply 502 (5, 5, 1)%Z (bs "RCPT not allowed during message transfer")]))
+  /\ handle_data cfg c nil = (c, [reply 502 (5, 5, 1)%Z (bs "DATA not allowed during message transfer")]).
+Proof. exact (mail_rcpt_data_during_transfer cfg c arg b). Qed.
+Print Assumptions C03_refused_during_transfer.
+
+Theorem C03_wrong_flavour_refused cfg c arg :
+  (cf_lmtp cfg = true ->
+     (exists m, handle cfg c (bs "EHLO") arg = (c, [reply 500 (5, 5, 1)%Z m]))
+     /\ (exists m, handle cfg c (bs "HELO") arg = (c, [reply 500 (5, 5, 1)%Z m])))
+  /\ (cf_lmtp cfg = false -> exists m, handle cfg c (bs "LHLO") arg = (c, [reply 500 (5, 5, 1)%Z m])).
+Proof. exact (wrong_flavour_refused cfg c arg). Qed.
+Print Assumptions C03_wrong_flavour_refused.
